@@ -1,7 +1,7 @@
 (* C03 - lexical scoping, closures and one-time defaults.  Statements only.
    [Extracted.Idents] is regenerated from the Rust source on every run. *)
 From Coq Require Import List ZArith NArith String.
-From Xr Require Import Base.Res Base.Show Lang.Syntax Lang.Eval Lang.Ident Extracted.Idents Lang.Cells.
+From Xr Require Import Base.Res Base.Show Lang.Syntax Lang.Eval Lang.Ident Extracted.Idents Lang.Cells Lang.Forward.
 Import ListNotations.
 Open Scope string_scope.
 
@@ -67,6 +67,23 @@ Example C03_cells_nonvacuous :
   map (walk st 0) [0; 1; 2; 3; 4] = map (walk (close_all st) 0) [0; 1; 2; 3; 4].
 Proof. vm_compute. repeat split; reflexivity. Qed.
 
+(* forward declarations: the compiler's bookkeeping (requirements recorded when a function is defined, checked transitively
+   through the implementations of fulfilled declarations when a function is invoked) accepts an invocation exactly when no
+   function reachable from it lacks a body.  BOUNDED statement (an exhaustive sweep lifted to a quantified statement, not an
+   unbounded proof): every program of at most 9 events over 3 function names, and of at most 7 events over 4 names, made of
+   forward declarations, definitions calling any subset of the smaller names, and invocations, in any order *)
+Theorem C03_forward_gate_bounded :
+  (forall es, List.length es <= 9 -> Forall (fun e => In e (universe 3)) es -> gate_right empty es = true) /\
+  (forall es, List.length es <= 7 -> Forall (fun e => In e (universe 4)) es -> gate_right empty es = true).
+Proof. split; apply all_runs_sound; vm_compute; reflexivity. Qed.
+(* the rule in force before the repair (met = declared function has an implementation) accepts an unsafe invocation *)
+Example C03_forward_shallow_rule_refuted :
+  match run empty [Fwd 1; Fwd 0; Def 2 [1]; Def 1 [0]] with
+  | Ok s => existsb (shallow_unmet s) [1] = false /\ safe_now s 2 = false /\ step s (Use 2) = MissingForward
+  | _ => False
+  end.
+Proof. exact shallow_rule_refuted. Qed.
+
 Print Assumptions C03_intern_injective.
 Print Assumptions C03_interner_pattern.
 Print Assumptions C03_intern_examples.
@@ -75,3 +92,5 @@ Print Assumptions C03_rethreading_preserves_denotation.
 Print Assumptions C03_closed_captures_have_depth_one.
 Print Assumptions C03_rethreading_one_scope.
 Print Assumptions C03_cells_nonvacuous.
+Print Assumptions C03_forward_gate_bounded.
+Print Assumptions C03_forward_shallow_rule_refuted.
